@@ -26,7 +26,7 @@ def check(ctx):
     for r in recs:
         if r["panic"]:
             failures.append({"case": r["line"], "check": "accepted", "detail": {"text": r["case"]["text"], "what": "panic " + r["panic"]},
-                             "guards": set(r["causes_cst"]), "model_agrees": True})
+                             "guards": set(), "model_agrees": False})      # a panic is never one of the recorded acceptance causes
             continue
         acc, _ = split_mismatch(r["cst"])
         if acc:
